@@ -170,9 +170,29 @@ def random_shared_case(rng, max_heavy, p_share=0.6, ctor=None):
         g = M.gen_molecule(rng, max_heavy=max_heavy)
     if len(g) < 2:
         return None
-    nparts = rng.randint(2, min(len(g), 5))
-    part = M.partition(rng, g, k=nparts)
-    case = M.build_case_shared(rng, g, part, p_share=p_share)
+    force = ()
+    star = rng.random() < 0.2
+    part = None
+    if star:
+        # hub: an atom whose neighbours all end up in different fragments and which is shared into each
+        hubs = [n for n in g if g.degree(n) >= 3]
+        if hubs:
+            hub = rng.choice(hubs)
+            rest = g.copy()
+            rest.remove_node(hub)
+            comps = list(nx.connected_components(rest))
+            if len(comps) >= 3:
+                part = {}
+                for i, comp in enumerate(comps):
+                    for n in comp:
+                        part[n] = i
+                part[hub] = rng.randrange(len(comps)) if rng.random() < 0.5 else len(comps)
+                force = (hub,)
+    if part is None:
+        nparts = rng.randint(2, min(len(g), 5))
+        part = M.partition(rng, g, k=nparts)
+    nparts = max(part.values()) + 1
+    case = M.build_case_shared(rng, g, part, p_share=p_share, force_atoms=force)
     if case is None or not case['shared']:
         return None
     dis = M.build_case(rng, g, part)
@@ -184,8 +204,12 @@ def random_shared_case(rng, max_heavy, p_share=0.6, ctor=None):
         ast, pre = M.base_to_ast(rng, c['base'])
         items = list(c['frags'].items())
         rng.shuffle(items)
+        nodes = list(c['base'].nodes)
+        rng.shuffle(nodes)
         out.append(dict(base_string=G.to_string(ast), frag_string='{' + ','.join('#%s=%s' % kv for kv in items) + '}',
-                        base_order=pre, ctor='string'))
+                        base_order=pre, ctor=ctor or rng.choice(['string', 'string', 'from_graph']),
+                        base_graph={'nodes': [[n, c['base'].nodes[n]['fragname']] for n in nodes],
+                                    'edges': [[a, b, d['order']] for a, b, d in c['base'].edges(data=True)]}))
     gx = case['gx']
     feats = set()
     nshare = collections.Counter()
@@ -199,6 +223,8 @@ def random_shared_case(rng, max_heavy, p_share=0.6, ctor=None):
             feats.add('shared_charged_atom')
     if any(v >= 2 for v in nshare.values()):
         feats.add('atom_shared_3plus_ways')
+    if any(v >= 3 for v in nshare.values()):
+        feats.add('atom_shared_4plus_ways')
     if len(case['shared']) >= 2:
         feats.add('several_shared_atoms')
     for i, mem in case['members'].items():
@@ -209,7 +235,14 @@ def random_shared_case(rng, max_heavy, p_share=0.6, ctor=None):
     if any(v >= 2 for v in case['cutcount'].values()):
         feats.add('base_order_ge2')
     smiles = M.molecule_smiles(rng, g)
+    origin = case['origin']
+    part_x = {n: [k for k, mem in case['members'].items() if n in mem][0] for n in gx}
+    membership = collections.defaultdict(set)
+    for n in gx:
+        membership[origin[n]].add(part_x[n])
     res = dict(kind='shared', shared=out[0], disjoint=out[1], truth=truth_to_json(truth), smiles=smiles,
+               frag_atoms={name: [origin[a] for a in atoms] for name, atoms in case['atom_orders'].items()},
+               membership={str(k): sorted(v) for k, v in membership.items()},
                single='{[#M]}.{#M=%s}' % smiles, nshared=len(case['shared']), natoms_frag=case['natoms_frag'],
                nheavy=len(g), nfrag=nparts, features=sorted(feats),
                base_string=out[0]['base_string'], frag_string=out[0]['frag_string'], ctor='string')
